@@ -156,4 +156,25 @@ def newPlainListMut (vals : List Node) : Node :=
     | some kw => propagate (v.setFlags (updFlagsMut kw v.flags))
     | none => v)))
 
+/-- `_maybe_promote` BEFORE the repair "a promoted node lost its own unsafety": the promoted node takes over
+    `self.__dict__` and nothing else -/
+def maybePromoteOld (sf : Flags) (sk : CompKind) (scs : List (Key × Node)) (o : Node) :
+    Except Err (Node × Bool) :=
+  match o with
+  | .leaf .. => .ok (.comp sf sk scs, true)
+  | .comp of ok _ =>
+    if sk.sameClass ok then .ok (.comp sf sk scs, true)
+    else if ok.strictSub sk then
+      match adoptAll of ok scs [] with
+      | .error e => .error e
+      | .ok cs' => .ok (.comp sf ok cs', false)
+    else if sk.strictSub ok then .ok (.comp sf sk scs, true)
+    else if sk.isPlain && !ok.isPlain then
+      if sk = .list then
+        match adoptAll of ok scs [] with
+        | .error e => .error e
+        | .ok cs' => .ok (.comp sf ok cs', false)
+      else .error .unsupported
+    else .ok (.comp sf sk scs, true)
+
 end AY.C07P
